@@ -162,6 +162,90 @@ def ulist_section(ctx, M):
     ctx.trust('a duplicate-free list is determined by its member set and the relative order of its members (induction, not a solver step)')
 
 
+# =============================================================================================== ulist.__init__ (the constructor contract the operators use)
+def init_section(ctx, M):
+    """ulist.__init__(self, *args, unique = False), executed from the real AST on the object under construction (an empty list of class type(self),
+    created by list.__new__ for this call) and one symbolic list argument xs (or none):
+
+      unique = False   self ends up holding DEDUP(xs): no duplicates, exactly the members of xs, first occurrences in the order of xs, at most len(xs)
+                       items - through whatever pipeline the body uses (today: set -> (index, item) pairs -> sorted -> second components), given the
+                       axioms of those builtins over the list theory; `xs.index(u)` never raises because u comes from set(xs); sorted() never compares
+                       two items because the first components of different items differ (an obligation at the call).
+      unique = True    self holds the items of xs, position by position (so it is duplicate free iff xs is - the call-site precondition).
+      no argument      self is empty.
+    These are the three contracts `Maps.construct` hands to every caller ulist(...) / type(self)(...)."""
+    mu = M['mu']
+    key = 'ulist.__init__'
+    if key not in M['inline']:
+        raise SelectorError('ulist.__init__ not found')
+    fdef = M['inline'][key][1]
+    xs = Const('xs', Lst)
+    a, b = Consts('a b', Val)
+    J0 = Int('J0')
+    CLS = Const('type_self', Cls)
+    for variant in ('dedup', 'dedup.no_argument', 'unique', 'unique.no_argument'):
+        th = Maps(M['classes'])
+        ex = Exec(mu, [th], inline=M['inline'], name='ulist.__init__.' + variant)
+        self_ = SV('plist', None, pl=PList.literal([]), cls='ulist', tag=CLS, own=True)
+        src = th.sym_list('xs', cls='list')
+        XS = src.pl
+        has_arg = 'no_argument' not in variant
+        outs = ex.run_function(State(), key, [self_] + ([src] if has_arg else []), {'unique': B(variant.startswith('unique'))})
+        E, J = [a, b], [J0]
+        inst = finish(ctx, ex, th, E, J)
+        ctx.record_function(mu, key, fdef, ex.stmts_executed)
+        wit = dict(len_xs=LEN(xs), a=a, b=b, J0=J0)
+        cells = []
+        for i in range(3):
+            wit['xs%d' % i] = XS.at(i)
+            cells.append(XS.at(i))
+        ctx.default_meta = dict(search_hints=[LEN(xs) <= 3] + th.inst(E + cells, [0, 1, 2]))
+        kw = dict(witness=wit, replay=rp('ulist_init', variant))
+        pre = 'ulist.__init__.%s.' % variant
+        nret = 0
+        for out in outs:
+            hy = ex.facts + out.st.pc + inst
+            if out.kind != 'return':
+                ctx.post(pre + 'never_raises.%s' % out.val, hy, BoolVal(False), kind='safety', **kw)
+                continue
+            nret += 1
+            cur = out.st.env.get('self')
+            if cur is None or cur.kind != 'plist':
+                raise OutOfSubset('ulist.__init__: receiver lost')
+            R = cur.pl
+            ctx.post(pre + 'returns_None_and_keeps_the_class', hy, And(BoolVal(out.val.kind == 'none' and cur.cls == 'ulist'), cur.tag == CLS), **kw)
+            if not has_arg:
+                ctx.post(pre + 'empty', hy, R.len == 0, **kw)
+            elif variant == 'dedup':
+                ctx.post(pre + 'no_duplicates', hy, R.nodup if R.nodup is not None else BoolVal(False), **kw)
+                ctx.post(pre + 'same_members', hy, R.mem(a) == XS.mem(a), **kw)
+                ctx.post(pre + 'first_occurrence_order', hy + [R.mem(a), R.mem(b)], (R.fst(a) < R.fst(b)) == (XS.fst(a) < XS.fst(b)), **kw)
+                ctx.post(pre + 'at_most_len_xs_items', hy, And(R.len <= XS.len, R.len >= 0), **kw)
+            else:
+                ctx.post(pre + 'same_length', hy, R.len == XS.len, **kw)
+                ctx.post(pre + 'same_item_at_every_position', hy + [0 <= J0, J0 < XS.len],
+                         (R.at(J0) == XS.at(J0)) if R.at is not None else BoolVal(False), **kw)
+                ctx.post(pre + 'same_element_view', hy, And(R.mem(a) == XS.mem(a), Implies(XS.mem(a), R.fst(a) == XS.fst(a))), **kw)
+                ctx.post(pre + 'duplicate_free_iff_xs_is', hy, (R.nodup == NODUP(xs)) if R.nodup is not None else BoolVal(False), **kw)
+            arg_now = out.st.env.get(fdef.args.vararg.arg) if fdef.args.vararg is not None else None
+            kept = (not has_arg) or (arg_now is not None and arg_now.kind == 'tuple' and len(arg_now.items) == 1 and arg_now.items[0] is src)
+            ctx.post(pre + 'argument_unchanged', hy, BoolVal(bool(kept)), kind='frame', **kw)
+        if not nret:
+            raise OutOfSubset('ulist.__init__ has no returning path')
+        muts = list(th.mutations)
+        ctx.post(pre + 'frame.writes_only_the_object_under_construction', [], BoolVal(len(muts) == 1 and all(own for _, own in muts)), kind='frame')
+        if has_arg:
+            ctx.cover(pre + 'precondition', [LEN(xs) >= 3, XS.mem(a), XS.mem(b), a != b, XS.at(0) == XS.at(2)] + th.inst(E + [XS.at(0), XS.at(2)], [0, 2]))
+    ctx.default_meta = {}
+    cdef = mu.func('ulist')
+    ctx.post('ulist.__init__.construction_is_list_new_then_this_init', [],
+             BoolVal(not any(isinstance(n, ast.FunctionDef) and n.name in ('__new__', '__init_subclass__', '__class_getitem__') for n in cdef.body)
+                     and [ast.unparse(bs) for bs in cdef.bases] == ['list'] and not cdef.keywords), kind='post')
+    ctx.trust('axiom:C(*args, **kw) for a subclass C of list that defines no __new__ creates an empty list of class C, runs C.__init__(it, *args, **kw) and '
+              'returns it (object construction; ulist.__init__.* verify what __init__ leaves in it)')
+
+
+
 # =============================================================================================== dictattr
 def dictattr_section(ctx, M, cls):
     """cls: 'dictattr' or 'Dict' - the static class whose MRO resolves the methods; the *dynamic* class is the symbolic tag"""
@@ -857,6 +941,7 @@ def build(ctx):
     ctx.post('axioms.list_and_dict_element_view_agree_with_cpython', [], BoolVal(not bad), kind='axiom-validation')
     M = machinery(ctx)
     ctx.guarded('ulist', lambda: ulist_section(ctx, M))
+    ctx.guarded('ulist.__init__', lambda: init_section(ctx, M))
     for cls in ('dictattr', 'Dict'):
         dictattr_section(ctx, M, cls)
     ctx.guarded('Dict.__call__', lambda: call_section(ctx, M))
